@@ -698,7 +698,9 @@ pub fn run(ctx: &Ctx) -> (Vec<Case>, String, bool, BTreeMap<String, String>) {
     // panic and the number of posted buffers is back at the queue size afterwards
     let mut v = crate::c18_vsockconn::run(ctx).0;
     for c in v.iter_mut() {
-        c.oracle_failures.retain(|f| f.contains("panic in poll") || f.contains("posted"));
+        // (everything that stream checks bears on "delivered to the caller exactly once … with exactly the
+        // bytes the device wrote": the connection manager is the caller-facing end of the receive path)
+        c.oracle_failures.retain(|f| !f.starts_with("[C"));
         c.id = format!("C19-via-{}", c.id);
         c.tag("socket-receive");
     }
